@@ -13,6 +13,7 @@ package ipv4
 //@   requires e != nil && r != nil && e.linkEP != nil
 //@   requires 0 <= hdr.usedIdx && hdr.usedIdx <= len(hdr.buf) && hdr.usedIdx >= header.IPv4MinimumSize && len(hdr.buf) <= 1 << 40 && 0 <= payload.size && payload.size <= 1 << 40
 //@   requires len(r.LocalAddress) == 4 && len(r.RemoteAddress) == 4 && len(ids) == buckets
+//@   apply oc16_period(0, 1)
 //@   modifies everything()
 
 // ---------------------------------------------------------------------------
